@@ -41,6 +41,7 @@ FAULT_KINDS = {
     "ValueError": ValueError,
     "HarnessError": HarnessError,
     "HarnessAbort": HarnessAbort,
+    "SharedValueError": ValueError,
 }
 
 
